@@ -36,6 +36,22 @@ CHECKS = {
             'are checked relationally.',
             'Histories longer than the depth bound and molecules with more than ~10 atoms are not explored; implicit node creation through '
             'add_edge on an absent key and in-place mutation of shared parameter lists are outside the alphabet.', '§4 C12'),
+    'C02': ('B', 'bounded exhaustive enumeration of molecules (sparse keys x all atom-id permutations x interaction subsets) written by the real ITP writer and read back by an independent reader',
+            'model_checking',
+            'Every combination of 3 sparse/unordered key sets, every atom-id assignment (none, all n! permutations, partial, sparse), every '
+            'subset of size <=3 (thorough 4) of a 13-entry interaction menu (guards, versions, groups, comments, impropers, n-body virtual '
+            'sites, empty parameters) and 3 charge/mass variants is written with write_molecule_itp and parsed by mc/readers.py; atoms must be '
+            'numbered 1..N in atom-id order with all 7 fields, and the multiset of (section, guard, atoms as node keys, parameters) must equal '
+            'the in-memory one; conditionals must be balanced.',
+            'Molecules of 4-5 atoms; mass without charge is not generated (ambiguous line for any reader).', '§4 C02'),
+    'C03': ('B', 'bounded exhaustive enumeration of molecule sequences x deduplication x sorting through the real writers and deferred writer, independent TOP/ITP/PDB/GRO readers',
+            'model_checking',
+            'Every sequence of <=3 (thorough 4) molecules over 7 shapes (same topology elsewhere, one parameter differing, permuted atom '
+            'ids, permuted node order with position-wise equal attributes, other keys, one atom fewer) x dedup on/off x SortMoleculeAtoms '
+            'on/off is named, written (top, itps, pdb, gro) through the real DeferredFileWriter and read back: [ molecules ] equals the '
+            'run-length encoding of the coordinate order, every molecule-type file is included exactly once, the k-th PDB/GRO record of every '
+            'molecule equals the k-th ITP atom, and molecules sharing a name have byte-identical separately written topologies.',
+            'Four-atom molecules, <=4 molecules per system.', '§4 C03'),
     'C07': ('A+D', 'explicit-state BFS over deferred-writer histories with a dict file-system model; exhaustive crash-point/torn-write enumeration of every finalisation; audit-hook monitor over all library writers; full product of a CLI run alphabet through the script\'s own entry() bound to real sub-processes',
             'model_checking',
             'Four layers. (1) every enabled operation (open w/a/r+/wb incl. re-opens, files appearing from outside, write, close) in every '
